@@ -20,11 +20,11 @@ def run(ctx):
     a = lsq.api_check(ctx, "C01:")
     r = lsq.gen_cases(ctx, "_gen_c10.cfg", lsq.tier_consts(ctx))
     corr = [(c, l) for c, l in zip(r.cases, r.lev) if l and c["adm"] and any(b["band"] > 0 for b in c["blocks"])]
-    lv = levelling.check(ctx, want=("C01",), cases=[c for c, l in corr], levs=[l for c, l in corr], max_networks=300 if q else 2500, alias={"C01": "C10"})
+    lv = levelling.check(ctx, want=("C01",), cases=[c for c, l in corr], levs=[l for c, l in corr], max_networks=300 if q else 1200, alias={"C01": "C10"})
     # ---- (b) diagonal cov-mat == per-observation sigma ; (c) exclusion inside a correlated cluster
     jobs, meta = [], []
     pool = [(c, l) for c, l in zip(r.cases, r.lev) if l and c["adm"] and c["rank"] == c["n"] and c["m"] >= 4]
-    pool = pool[:: max(1, len(pool) // (60 if q else 600))]
+    pool = pool[:: max(1, len(pool) // (60 if q else 300))]
     for k, (c, l) in enumerate(pool):
         # (b) diagonal layout
         cd = copy.deepcopy(c)
